@@ -47,10 +47,11 @@ Definition nrow := (N * bool * bool)%type.
 (** emitted event: key and the harness's own prediction (delivered exactly once?) *)
 Definition erow := (key * bool)%type.
 
-(** flags: recovery on, server->client, client strips a trailing string (code as it stands) *)
+(** flags: recovery on, server->client, client strips a trailing string (code as it stands),
+    websocket traffic with attachments while a poll response of the old transport is in flight *)
 (** last component: how often the offset-probe handler (one more string parameter than the
     emitter sends) saw a non-empty / an empty extra argument *)
-Definition ccase := ((bool * bool * bool) * list nrow * list erow * list key * (N * N))%type.
+Definition ccase := ((bool * bool * bool * bool) * list nrow * list erow * list key * (N * N))%type.
 
 Definition find_name (i : N) (ns : list nrow) : option nrow :=
   find (fun r => N.eqb (fst (fst r)) i) ns.
@@ -58,7 +59,7 @@ Definition find_name (i : N) (ns : list nrow) : option nrow :=
 (** the model's side condition for one emitted event, through [handler_runs] of Sio/EndToEnd.v *)
 Definition event_ok (c : ccase) (e : erow) : bool :=
   let '(fl, ns, _, _, _) := c in
-  let '(rec, dir, strips) := fl in
+  let '(rec, dir, strips, _) := fl in
   let '(_, ni, _) := fst e in
   match find_name ni ns with
   | Some (_, last_str, name_ok) =>
@@ -69,7 +70,9 @@ Definition event_ok (c : ccase) (e : erow) : bool :=
 (** an event outside C09's side condition breaks the connection (parse error), after which the
     rest of the history is only constrained to be a part of what was sent *)
 Definition conn_safe (c : ccase) : bool :=
-  let '(_, ns, em, _, _) := c in
+  let '(fl, ns, em, _, _) := c in
+  let '(_, _, _, wsatt) := fl in
+  feeders_safe true wsatt &&
   forallb (fun e => match find_name (snd (fst (fst e))) ns with
                     | Some (_, _, name_ok) => name_ok | None => false end) em.
 
@@ -89,9 +92,11 @@ Definition model_appends_offset (rec dir strips : bool) : bool :=
 
 Definition agree (c : ccase) : bool :=
   let '(fl, _, em, del, (probe_set, probe_zero)) := c in
-  let '(rec, dir, strips) := fl in
+  let '(rec, dir, strips, _) := fl in
   forallb (fun e => Bool.eqb (snd e) (event_ok c e)) em
-  && (if conn_safe c then ms_eq del (predicted c) else ms_sub del (predicted c))
+  && (let '(_, _, _, wsatt) := fl in
+      if negb (feeders_safe true wsatt) then true   (* refuted configuration: no prediction *)
+      else if conn_safe c then ms_eq del (predicted c) else ms_sub del (predicted c))
   (* the handler with an extra parameter sees the appended offset exactly when the model appends one *)
   && (if model_appends_offset rec dir strips then N.eqb probe_zero 0 else N.eqb probe_set 0).
 
